@@ -149,6 +149,14 @@ let segs_of s = if s = "_" then [] else
         | [d; e] -> { seg_data = h2b d; seg_err = (if e = "" then None else Some (err_of e)) }
         | _ -> failwith "seg") (String.split_on_char ',' s)
 
+
+let events_str evs = match evs with [] -> "_" | _ ->
+  String.concat " " (List.map (function
+    | KUnbox (k, p, n, b) -> String.concat ":" ["unbox"; bytes_to_hex k; bytes_to_hex p; bytes_to_hex n; bytes_to_hex b]
+    | KPreUnbox (k, p, n, b) -> String.concat ":" ["preunbox"; bytes_to_hex k; bytes_to_hex p; bytes_to_hex n; bytes_to_hex b]
+    | KBox (k, p, n, m) -> String.concat ":" ["box"; bytes_to_hex k; bytes_to_hex p; bytes_to_hex n; bytes_to_hex m]
+    | KSign (k, m) -> String.concat ":" ["sign"; bytes_to_hex k; bytes_to_hex m]) evs)
+
 let ints_to_str l = match l with [] -> "-" | _ -> String.concat "," (List.map string_of_int l)
 let str_to_ints s = if s = "-" then [] else List.map int_of_string (String.split_on_char ',' s)
 
@@ -254,6 +262,14 @@ let ops : (string * (string list -> string)) list = [
           bytes_to_hex d ^ ":" ^ (match e with None -> "" | Some e -> err_str e))
         (m_cr_run (List.map nat_of_int (str_to_ints sizes)) { cr_prev = []; cr_err = None; cr_pending = l })) | _ -> failwith "args");
   "armor_stream", (function [hdr; ftr; pieces] -> bytes_to_hex (m_armor_stream (h2b hdr) (h2b ftr) (blist_of pieces)) | _ -> failwith "args");
+  (* ---- key-object call traces ---- *)
+  "open_events", (function [vd; keys; senders; input] ->
+      events_str (m_open_events cr (validator_of vd) (ring_of keys senders) (h2b input)) | _ -> failwith "args");
+  "sc_open_events", (function [keys; input] ->
+      events_str (m_sc_open_events (ring_of keys "all") (h2b input)) | _ -> failwith "args");
+  "sign_events", (function [mode; v; sk; pieces; rng] ->
+      events_str (if mode = "att" then m_sign_attached_events cr (version_of v) (h2b sk) (blist_of pieces) (h2b rng)
+                  else m_sign_detached_events cr (version_of v) (h2b sk) (List.concat (blist_of pieces)) (h2b rng)) | _ -> failwith "args");
 ]
 
 let () =
